@@ -117,7 +117,10 @@ class Identification(Harness):
         G.sensor.decode_bitmap, G.sensor.decode_day_of_week, G.sensor.decode_months = G.orig_bitmap, *G.orig_sensor_fns
         lo, hi = self.field
         pos = int(sym_int("pos", lo, hi - 1))
-        val = sym_int("val", 0, 255)
+        # every value is its own path anyway (text decoding forks per character): enumerate it up front so that the
+        # identification strings are plain str objects (indexing a string that carries symbolic-character tokens is
+        # not modelled)
+        val = int(sym_int("val", 0, 255))
         try:
             kind, e = self._run(G, pos, val, const_crc)
         except Exception as e:  # noqa: BLE001
@@ -135,6 +138,86 @@ class Identification(Harness):
         return {"outcome": kind, "violation": None, "observed": f"byte {pos} = {val:#04x}: {kind}"}
 
 
+class PublicCount(Harness):
+    """The failure count as a user sees it: connect(), read_runtime_data(), read_setting(), read_device_info() again,
+    read_runtime_data() again on one inverter object, where each of the first N requests of the run is lost or
+    answered by (solver-enumerated) choice.  Every RequestFailedException that reaches the caller must carry the number
+    of requests lost since the last answered one — also when the lost requests were optional probes whose failure the
+    library swallows."""
+
+    name = "public-count"
+
+    def __init__(self, family, refuse, n):
+        self.family, self.refuse, self.n = family, list(refuse), n
+        self.params = {"family": family, "refuse": self.refuse, "n": n}
+
+    def _run(self, M, decide, crc):
+        serial = {"ET": "9010KETU218W0001", "ES": "95048ESU218W0001", "DT": "9010KDTU218W0001"}[self.family]
+        dev = {"family": self.family, "serial": serial}
+        blocks = models.ET_BLOCKS if self.family == "ET" else models.DT_BLOCKS
+        ref, k, seen = [0], [0], []
+        X = M.exceptions
+        with World(M, dev, refuse=models.refuse_fn(self.refuse, blocks), crc=crc) as w:
+            def lose(cmd):
+                i = k[0]
+                k[0] += 1
+                lost = bool(decide(i)) if i < self.n else False
+                if lost:
+                    ref[0] += 1
+                return lost
+
+            def answered(cmd):
+                ref[0] = 0
+            w.lose, w.on_answered = lose, answered
+
+            def call(label, mk):
+                try:
+                    return drive(mk())
+                except X.RequestFailedException as e:
+                    seen.append((label, e.consecutive_failures_count, ref[0]))
+                except X.InverterError:
+                    pass
+                return None
+            inv = call("connect", lambda: M.pkg.connect("10.0.0.1", 8899, self.family, 0, 1, 0))
+            if inv is not None:
+                call("runtime", inv.read_runtime_data)
+                call("setting", lambda: inv.read_setting("grid_export_limit"))
+                call("device_info", inv.read_device_info)
+                call("runtime2", inv.read_runtime_data)
+        return seen, k[0]
+
+    def symbolic(self, ex):
+        G = shimmed()
+        G.modbus._modbus_checksum = const_crc
+        G.sensor.decode_bitmap, G.sensor.decode_day_of_week, G.sensor.decode_months = G.orig_bitmap, *G.orig_sensor_fns
+        cache = {}
+
+        def decide(i):
+            if i not in cache:
+                cache[i] = int(sym_int(f"lost{i}", 0, 1))
+            return cache[i]
+        try:
+            seen, total = self._run(G, decide, const_crc)
+        except Exception as e:  # noqa: BLE001
+            ex.fail("a public call raised an exception outside the InverterError family", f"{type(e).__name__}: {e}")
+        for label, got, want in seen:
+            if got != want:
+                ex.fail("consecutive_failures_count is wrong", f"{label}: {got} != {want}")
+        return f"{len(seen)} failures reported"
+
+    def concrete(self, inputs):
+        R = real()
+        try:
+            seen, total = self._run(R, lambda i: inputs.get(f"lost{i}", 0), None)
+        except Exception as e:  # noqa: BLE001
+            return {"outcome": "raised", "violation": f"{self.family}: public call raised {type(e).__name__}", "observed": str(e)}
+        bad = [x for x in seen if x[1] != x[2]]
+        lost = [i for i in range(self.n) if inputs.get(f"lost{i}", 0)]
+        return {"outcome": f"{len(seen)} failures reported",
+                "violation": f"{self.family}: consecutive_failures_count reported by {bad[0][0]}() is wrong" if bad else None,
+                "observed": f"lost requests {lost} of {total}: reported (call, count, expected) = {seen}"}
+
+
 def tasks(tier, seed):
     alphabet = ALPHABET if tier == "thorough" else ["drop", "answer", "exception", "two_fragments", "peer_closes", "send_error",
                                                      "dup_exception"]
@@ -150,6 +233,9 @@ def tasks(tier, seed):
     ident = [("discover", "ET", (5, 15)), ("discover", "ET", (31, 47)), ("discover", "DT", (31, 47)), ("discover", "ES", (0, 5)),
              ("connect", "ET", (6, 22)), ("connect", "ET", (22, 32)), ("connect", "ET", (42, 66)), ("connect", "DT", (6, 32)),
              ("connect", "ES", (0, 15)), ("connect", "ES", (31, 63))]
+    n = 12 if tier == "quick" else 16
+    for fam, refuse in (("ET", []), ("ET", ["eco_v2", "peak_shaving"]), ("DT", []), ("ES", [])):
+        ts.append({"name": f"public-count-{fam}-{len(refuse)}", "fn": "public", "item": (fam, refuse, n)})
     for i, (e, f, rng) in enumerate(ident):
         ts.append({"name": f"ident-{i}", "fn": "ident", "item": (e, f, rng)})
     return ts
@@ -158,6 +244,12 @@ def tasks(tier, seed):
 def run_task(task):
     if task.get("fn") == "counter":
         return {"harnesses": [explore(CounterStep(), max_paths=100)]}
+    if task.get("fn") == "public":
+        G = shimmed()
+        if not hasattr(G, "orig_sensor_fns"):
+            G.orig_sensor_fns = (G.sensor.decode_day_of_week, G.sensor.decode_months)
+            G.orig_bitmap = G.sensor.decode_bitmap
+        return {"harnesses": [explore(PublicCount(*task["item"]), max_paths=20000, max_seconds=900, witnesses_per_outcome=1)]}
     if task.get("fn") == "ident":
         G = shimmed()
         if not hasattr(G, "orig_sensor_fns"):
@@ -171,6 +263,9 @@ def run_task(task):
 def replay(case):
     if case["harness"] == "counter-step":
         return CounterStep().concrete(case["inputs"])
+    if case["harness"] == "public-count":
+        p = case["params"]
+        return PublicCount(p["family"], p["refuse"], p["n"]).concrete(case["inputs"])
     if case["harness"] == "identification":
         p = case["params"]
         return Identification(p["entry"], p["family"], p["field"]).concrete(case["inputs"])
@@ -185,7 +280,10 @@ def evidence_meta(tier):
                 "identification data with one symbolic byte at a symbolic position",
         "bounds": {"fault_scripts": "as C04 (retries+1 <= 2), followed by drain to quiescence (late callbacks)",
                    "counter": "inductive step from any counter value 0..10^6 x {success, MaxRetries, RequestFailed, rejected}; "
-                              "plus end-to-end histories of 4 (quick) / 6 (thorough) requests",
+                              "plus end-to-end histories of 4 (quick) / 6 (thorough) requests; public calls (connect, "
+                              "read_runtime_data, read_setting, read_device_info, read_runtime_data) with every loss "
+                              "pattern over the first 12 (quick) / 16 (thorough) requests, ET (with/without refused "
+                              "eco-v2/peak-shaving blocks), DT, ES",
                    "identification": "every byte position of model/serial/firmware fields x all 256 values"},
         "outside": ["MemoryError, KeyboardInterrupt and other interpreter-level exceptions"],
         "assumptions": ["a rejection leaves the failure counter unchanged (the statement counts requests 'without valid "
